@@ -4,6 +4,7 @@ C17 — where and how operations are written does not change the generated code.
 import Genq.Model.Files
 import Genq.Model.GenSkel
 import Genq.Extracted.Gen
+import Genq.Proofs.Lines
 namespace Genq.Files
 
 /-- **C17_collect_perm** — enumerating the same files in another order gives the validator and
@@ -67,3 +68,38 @@ namespace Genq
     committed one. -/
 theorem C17_expandFilenames_tie : Extracted.expandFilenamesSkeleton = GenSkel.expandFilenamesSkeleton := rfl
 end Genq
+
+/-! ### which comment lines stand above a node does not depend on the file's line-ending convention -/
+namespace Genq.Lines
+
+/-- **C17_lines_are_the_lexers_lines** — the line slice the comment scan uses is, for every source text, exactly
+    the lexer's division into lines: line k of the slice is the text of the lexer's line k -/
+theorem C17_lines_are_the_lexers_lines (s : Str) : linesFixed s = lexLines s := linesFixed_eq_lexLines s
+
+/-- **C17_line_ending_convention_irrelevant** — the same lines written with "\n", "\r\n" or bare "\r" line ends
+    give the comment scan the same line slice (namely those lines), so the same comments and @genqlient
+    directives are found above every node -/
+theorem C17_line_ending_convention_irrelevant (e1 e2 : Ending) (ls : List Str) (hne : ls ≠ [])
+    (hc : ∀ l ∈ ls, clean l) :
+    linesFixed (joinLines e1 ls) = ls ∧ linesFixed (joinLines e1 ls) = linesFixed (joinLines e2 ls) := by
+  rw [linesFixed_eq_lexLines, linesFixed_eq_lexLines, lexLines_joinLines e1 ls hne hc, lexLines_joinLines e2 ls hne hc]
+  exact ⟨rfl, rfl⟩
+
+/-- before fix fa11825 this failed for bare "\r" (witness): the directive line was not a line of its own -/
+theorem C17_old_split_cr_witness :
+    linesOld (joinLines .cr ["# @genqlient(pointer: true)".toList, "query Q { f }".toList]) ≠
+      ["# @genqlient(pointer: true)".toList, "query Q { f }".toList] ∧
+    linesFixed (joinLines .cr ["# @genqlient(pointer: true)".toList, "query Q { f }".toList]) =
+      ["# @genqlient(pointer: true)".toList, "query Q { f }".toList] := by decide
+
+/-- **C17_parsePrecedingComment_tie** -/
+theorem C17_parsePrecedingComment_tie :
+    Extracted.parsePrecedingCommentSkeleton = GenSkel.parsePrecedingCommentSkeleton := rfl
+
+-- non-vacuity of C17_line_ending_convention_irrelevant
+example : clean "query Q { f }".toList := by
+  intro c hc
+  simp at hc
+  rcases hc with h | h | h | h | h | h | h | h | h | h | h | h | h <;> subst h <;> decide
+
+end Genq.Lines
